@@ -74,8 +74,9 @@ theorem addRoute_fields (rs : RouterSt) (rt : RouteRec) :
 theorem foldl_addRoute (recs : List RouteRec) (rs : RouterSt) (hne : recs ≠ []) :
     recs.foldl addRoute rs =
       if rs.warmed then
-        { rs with hasInfo := true, tree := rs.tree ++ recs.map fun rt => { rt with hs := rs.mw ++ rt.hs } }
-      else { rs with hasInfo := true, pending := rs.pending ++ recs } := by
+        { rs with hasInfo := true, objs := rs.objs ++ recs,
+                  tree := rs.tree ++ recs.map fun rt => { rt with hs := rs.mw ++ rt.hs } }
+      else { rs with hasInfo := true, objs := rs.objs ++ recs, pending := rs.pending ++ recs } := by
   induction recs generalizing rs with
   | nil => exact (hne rfl).elim
   | cons a l ih =>
@@ -250,7 +251,7 @@ inductive RStepM (w : World) (op : Op) (rs' : List RouterSt) : Prop
 theorem handed_nomount (w : World) (op : Op) (h : isMount op = false) : handed w op = (routeRecOf w op).toList := by
   cases op <;> first | rfl | (simp [isMount, isMountOp] at h)
 
-theorem rstepM (w : World) (op : Op) : RStepM w op (apply w op).routers := by
+theorem rstepM (w : World) (op : Op) (hwh : isWhereOp op = false) : RStepM w op (apply w op).routers := by
   by_cases hm : isMount op = true
   · cases op <;> simp [isMount, isMountOp] at hm
     case mount p s seg inh extra =>
@@ -259,7 +260,7 @@ theorem rstepM (w : World) (op : Op) : RStepM w op (apply w op).routers := by
       rw [mountOp_eq, foldl_addRouteOn_routers]
   · have hm' : isMount op = false := by simpa using hm
     have hh := handed_nomount w op hm'
-    cases rstep w op hm' with
+    cases rstep w op hm' hwh with
     | new h1 h2 => exact .new h1 h2 (by rw [hh, h1]; rfl)
     | use r hs h1 h2 h3 h4 => exact .use r hs h1 h2 h3 (by rw [hh, h4]; rfl)
     | warm r h1 h2 => exact .warm r h1 h2 (by rw [hh, h1]; rfl)
@@ -270,7 +271,10 @@ theorem rstepM (w : World) (op : Op) : RStepM w op (apply w op).routers := by
     | same h1 h2 h3 h4 h5 =>
       exact .hand 0 [] (by rw [hh, h1]; rfl) h2 (by rw [h5]; simp [modifyAt_id]) h3 h4
 
-theorem routers_length_M (script : List Op) :
+/-- no constraint is added to a route after its declaration -/
+def NoWhere (script : List Op) : Prop := ∀ op ∈ script, isWhereOp op = false
+
+theorem routers_length_M (script : List Op) (hnw : NoWhere script) :
     ∀ t, t ≤ script.length → (W script t).routers.length = 1 + cnt isNewRouter script t := by
   intro t
   induction t with
@@ -278,7 +282,7 @@ theorem routers_length_M (script : List Op) :
   | succ t ih =>
     intro ht
     have htl : t < script.length := ht
-    have hs := rstepM (W script t) script[t]
+    have hs := rstepM (W script t) script[t] (hnw script[t] (List.getElem_mem htl))
     rw [← W_succ script t htl] at hs
     have hcnt := cnt_succ isNewRouter script t htl
     have ih' := ih (Nat.le_of_lt htl)
@@ -298,7 +302,7 @@ theorem routers_length_M (script : List Op) :
 /-- only the serving router is ever warmed up explicitly -/
 def SubsCold (script : List Op) : Prop := ∀ op ∈ script, ∀ r, op = .warmup r → r = 0
 
-theorem rinvM (script : List Op) (hwf : WFR script) :
+theorem rinvM (script : List Op) (hnw : NoWhere script) (hwf : WFR script) :
     ∀ t, t ≤ script.length → ∀ r rs, (W script t).routers[r]? = some rs → RInvM script t r rs := by
   intro t
   induction t with
@@ -315,9 +319,9 @@ theorem rinvM (script : List Op) (hwf : WFR script) :
     intro ht r rs hr
     have htl : t < script.length := ht
     have ih' := ih (Nat.le_of_lt htl)
-    have hs := rstepM (W script t) script[t]
+    have hs := rstepM (W script t) script[t] (hnw script[t] (List.getElem_mem htl))
     rw [← W_succ script t htl] at hs
-    have hlen := routers_length_M script t (Nat.le_of_lt htl)
+    have hlen := routers_length_M script hnw t (Nat.le_of_lt htl)
     have hH := handed_at script t htl
     cases hs with
     | new h1 h2 h3 =>
@@ -339,7 +343,7 @@ theorem rinvM (script : List Op) (hwf : WFR script) :
         · show ([] : List Hid) = _
           rw [usesB_succ _ _ _ htl, hsel r, usesB_router_future_nil script hwf r t (by omega)]; rfl
         · intro i rec0 a b c
-          have hli := routers_length_M script i (by omega)
+          have hli := routers_length_M script hnw i (by omega)
           have := cnt_mono isNewRouter script i t (by omega)
           omega
     | use r0 hs h1 h2 h3 h4 =>
@@ -432,7 +436,7 @@ theorem foldl_addRoute_warmed (recs : List RouteRec) (rs : RouterSt) :
   | nil => rfl
   | cons a l ih => rw [List.foldl_cons, ih, (addRoute_fields rs a).2]
 
-theorem subs_cold (script : List Op) (hc : SubsCold script) :
+theorem subs_cold (script : List Op) (hnw : NoWhere script) (hc : SubsCold script) :
     ∀ t, t ≤ script.length → ∀ r rs, 1 ≤ r → (W script t).routers[r]? = some rs → rs.warmed = false := by
   intro t
   induction t with
@@ -446,7 +450,7 @@ theorem subs_cold (script : List Op) (hc : SubsCold script) :
     intro ht r rs h1 hr
     have htl : t < script.length := ht
     have ih' := ih (Nat.le_of_lt htl)
-    have hs := rstepM (W script t) script[t]
+    have hs := rstepM (W script t) script[t] (hnw script[t] (List.getElem_mem htl))
     rw [← W_succ script t htl] at hs
     cases hs with
     | new a b _ =>
@@ -535,7 +539,7 @@ theorem matchLevels_append_must (must may : List Hid) (ls : List Level) (c : Lis
   have := matchLevels_cons must may [] c ls (List.nil_sublist _) hc
   simpa using this
 
-theorem bridge (script : List Op) (hwf : WFM script) (hc : SubsCold script) :
+theorem bridge (script : List Op) (hnw : NoWhere script) (hwf : WFM script) (hc : SubsCold script) :
     ∀ j r rec, Handed script j r rec → IDesc script r rec j := by
   intro j
   induction j using Nat.strongRecOn with
@@ -549,9 +553,9 @@ theorem bridge (script : List Op) (hwf : WFM script) (hc : SubsCold script) :
         have hrt := hwf.rt j _ hop
         simp only [] at hrt
         -- the sub-router is cold: the record was still pending there
-        have hcold := subs_cold script hc j (Nat.le_of_lt hjl) s sr (by omega) hs
-        have hinvS := rinvM script hwf.r j (Nat.le_of_lt hjl) s sr hs
-        have hinvP := rinvM script hwf.r j (Nat.le_of_lt hjl) r pr hp
+        have hcold := subs_cold script hnw hc j (Nat.le_of_lt hjl) s sr (by omega) hs
+        have hinvS := rinvM script hnw hwf.r j (Nat.le_of_lt hjl) s sr hs
+        have hinvP := rinvM script hnw hwf.r j (Nat.le_of_lt hjl) r pr hp
         have hpend : recS ∈ sr.pending := by
           rcases hin with h | h
           · exact h
@@ -603,12 +607,12 @@ theorem vrouter_is_serving (script : List Op) (hwf : WFM script) (t v r ver : Na
   case aversion ver' => exact h4.1.symm
 
 /-- the router a declaring op hands its record to exists -/
-theorem decl_router_exists (script : List Op) (hwf : WFM script) (j : Nat) (op : Op) (r : Nat) (rec : RouteRec)
+theorem decl_router_exists (script : List Op) (hnw : NoWhere script) (hwf : WFM script) (j : Nat) (op : Op) (r : Nat) (rec : RouteRec)
     (hop : script[j]? = some op) (hrec : routeRecOf (W script j) op = some (r, rec)) :
     r < (W script j).routers.length := by
   have hjl := lt_of_getElem? hop
   have hjle : j ≤ script.length := Nat.le_of_lt hjl
-  have hlen := routers_length_M script j hjle
+  have hlen := routers_length_M script hnw j hjle
   have hzero : 0 < (W script j).routers.length := by omega
   cases op with
   | route o seg hs =>
@@ -664,13 +668,13 @@ theorem decl_router_exists (script : List Op) (hwf : WFM script) (j : Nat) (op :
       rw [vrouter_is_serving script hwf j p.owner r' ver hjle hv]; exact hzero
   | _ => simp [routeRecOf] at hrec
 
-theorem routers_length_mono (script : List Op) (a b : Nat) (hab : a ≤ b) (hb : b ≤ script.length) :
+theorem routers_length_mono (script : List Op) (hnw : NoWhere script) (a b : Nat) (hab : a ≤ b) (hb : b ≤ script.length) :
     (W script a).routers.length ≤ (W script b).routers.length := by
-  rw [routers_length_M script a (Nat.le_trans hab hb), routers_length_M script b hb]
+  rw [routers_length_M script hnw a (Nat.le_trans hab hb), routers_length_M script hnw b hb]
   have := cnt_mono isNewRouter script a b hab
   omega
 
-theorem presence (script : List Op) (hwf : WFM script) (hc : SubsCold script) (i rr : Nat) (ver0 : Option Nat)
+theorem presence (script : List Op) (hnw : NoWhere script) (hwf : WFM script) (hc : SubsCold script) (i rr : Nat) (ver0 : Option Nat)
     (path0 : Path) (gls : List Level) (hs : List Hid)
     (hri : routeInfo script i = some (rr, ver0, path0, gls, hs)) :
     ∀ (js : List Nat) (r : Nat) (mpre : Path) (mls : List Level),
@@ -702,7 +706,7 @@ theorem presence (script : List Op) (hwf : WFM script) (hc : SubsCold script) (i
         have hm : isMount op = false := by
           cases op <;> first | rfl | (simp [routeRecOf] at hrec)
         refine ⟨rec0, ⟨op, hop, ?_⟩, by simp,
-          decl_router_exists script hwf i op r rec0 hop hrec, lt_of_getElem? hop, by simp [e2]⟩
+          decl_router_exists script hnw hwf i op r rec0 hop hrec, lt_of_getElem? hop, by simp [e2]⟩
         show (r, rec0) ∈ handed (W script i) op
         rw [handed_nomount _ _ hm, hrec]; simp
     · simp [hr] at hml
@@ -726,13 +730,13 @@ theorem presence (script : List Op) (hwf : WFM script) (hc : SubsCold script) (i
           have hjl := lt_of_getElem? hop
           have hrt := hwf.rt j _ hop
           simp only [] at hrt
-          have hlenj := routers_length_M script j (Nat.le_of_lt hjl)
+          have hlenj := routers_length_M script hnw j (Nat.le_of_lt hjl)
           have hs_lt : s < (W script j).routers.length := by rw [hlenj]; exact hrt.2
           have hp_lt : p < (W script j).routers.length := by omega
           have hsr := List.getElem?_eq_getElem hs_lt
           have hpr := List.getElem?_eq_getElem hp_lt
-          have hinvS := rinvM script hwf.r j (Nat.le_of_lt hjl) s _ hsr
-          have hcold := subs_cold script hc j (Nat.le_of_lt hjl) s _ (by omega) hsr
+          have hinvS := rinvM script hnw hwf.r j (Nat.le_of_lt hjl) s _ hsr
+          have hcold := subs_cold script hnw hc j (Nat.le_of_lt hjl) s _ (by omega) hsr
           have hpend : recS ∈ ((W script j).routers[s]).pending := by
             rcases hinvS.pres (arr js i) recS htn hH hex with h | ⟨treg, _, _, h⟩
             · exact h
@@ -918,7 +922,7 @@ theorem getLast?_append_some {α} (a b : List α) (x : α) (h : b.getLast? = som
 
 /-- **Soundness of the composition model, `Mount` included** — for scripts in which only the
     serving router is warmed up explicitly. -/
-theorem compose_admitted_mount (script : List Op) (hwf : WFM script) (hc : SubsCold script) (tg : Target)
+theorem compose_admitted_mount (script : List Op) (hnw : NoWhere script) (hwf : WFM script) (hc : SubsCold script) (tg : Target)
     (ver : Option Nat) (path : Path) (ls : List Level) (hl : levels script tg = some (ver, path, ls)) :
     ∃ chain, compose script ver path = some chain ∧ matchLevels ls chain = true := by
   obtain ⟨js, i⟩ := tg
@@ -934,7 +938,7 @@ theorem compose_admitted_mount (script : List Op) (hwf : WFM script) (hc : SubsC
       obtain ⟨mpre, mls⟩ := y0
       simp only [hml, Option.bind_some, Option.some.injEq, Prod.mk.injEq] at hl
       obtain ⟨rfl, rfl, rfl⟩ := hl
-      obtain ⟨rec, hH, hpath, hex, harrlt, hver⟩ := presence script hwf hc i rr ver path0 gls hs hri js 0 mpre mls hml
+      obtain ⟨rec, hH, hpath, hex, harrlt, hver⟩ := presence script hnw hwf hc i rr ver path0 gls hs hri js 0 mpre mls hml
       have hv : rec.ver = ver := by
         by_cases hjs : js = []
         · simpa [hjs] using hver
@@ -947,12 +951,12 @@ theorem compose_admitted_mount (script : List Op) (hwf : WFM script) (hc : SubsC
             omega
       obtain ⟨sg, opi, hsg, hopi, hsegi⟩ := routeInfo_seg script hwf.toWF i rr ver path0 gls hs hri
       -- router 0 at the end of the script
-      have hlen := routers_length_M script script.length (Nat.le_refl _)
+      have hlen := routers_length_M script hnw script.length (Nat.le_refl _)
       have h0lt : 0 < (W script script.length).routers.length := by omega
       have hrs0 : (W script script.length).routers[0]? = some (W script script.length).routers[0] :=
         List.getElem?_eq_getElem h0lt
       generalize (W script script.length).routers[0] = rs0 at hrs0
-      have hinv := rinvM script hwf.r script.length (Nat.le_refl _) 0 rs0 hrs0
+      have hinv := rinvM script hnw hwf.r script.length (Nat.le_refl _) 0 rs0 hrs0
       have hcomp : compose script ver (mpre ++ path0) = findRoute (warmup rs0).tree ver (mpre ++ path0) := by
         unfold compose
         rw [← W_full, hrs0]
@@ -1003,7 +1007,7 @@ theorem compose_admitted_mount (script : List Op) (hwf : WFM script) (hc : SubsC
       have hpath' : rec0'.path = mpre ++ path0 := by rw [← hyp.2, b4]; rfl
       -- the oracle's description of the record that was found
       obtain ⟨js', i'', rr', ver', path0', gls', hs', mpre', mls', d1, d2, d3, d4, d5, d6, sg', opi', d7, d8, d9⟩ :=
-        bridge script hwf hc i' 0 rec0' b3
+        bridge script hnw hwf hc i' 0 rec0' b3
       have hlast : (mpre ++ path0).getLast? = some sg := getLast?_append_some _ _ _ hsg
       have hlast' : (mpre' ++ path0').getLast? = some sg' := getLast?_append_some _ _ _ d7
       rw [← d4, hpath', hlast] at hlast'
@@ -1034,6 +1038,11 @@ theorem compose_admitted_mount (script : List Op) (hwf : WFM script) (hc : SubsC
       rw [show arrival js' i'' = i' from d1, hmid, routerLevel_eq, splitAt_eq]
       have := matchLevels_cons (usesB script (selUse 0) i') _ mid _ (mls ++ gls ++ [(hs, [])]) hsub d6
       simpa [usesB, List.append_assoc] using this
+
+theorem noWhere_of_noWhereB (script : List Op) (h : noWhereB script = true) : NoWhere script := by
+  intro op hop
+  simp only [noWhereB, List.all_eq_true] at h
+  simpa using h op hop
 
 theorem subsCold_of_subsColdB (script : List Op) (h : subsColdB script = true) : SubsCold script := by
   intro op hop r hr
